@@ -486,6 +486,13 @@ class SymArray:
     def min(self):
         return _reduce(self._flat(), s_min)
 
+    def __getattr__(self, name):
+        if not name.startswith("_"):
+            import numpy
+            if hasattr(numpy.ndarray, name):
+                raise Unsupported(f"ndarray.{name} is not modelled")
+        raise AttributeError(name)
+
     def _arg(self, op):
         """Index of the first extreme element; every comparison that the path condition does not settle splits the path."""
         if self.ndim != 1:
